@@ -274,7 +274,7 @@ Theorem C07_closed_then_dialable :
   forall L m p c, In (EvClosed p c) (snd (step L m (Closed p c))) ->
   let m' := fst (step L m (Closed p c)) in
   (exists d, state_of m' p = Disconnected d) /\
-  forall f, ~ In (Ret RET_CONNECTED) (snd (do_dial_peer L m' p f)).
+  forall ts fl, ~ In (Ret RET_CONNECTED) (snd (do_dial_peer L m' p ts fl)).
 Proof. exact closed_then_dialable. Qed.
 Print Assumptions C07_closed_then_dialable.
 
@@ -282,11 +282,11 @@ Print Assumptions C07_closed_then_dialable.
    application was told about, silently (the `connection_closed` flag of the rollback is discarded). Before
    the repair of F-C07b this was reachable; now no accept future of a node fails (next theorem). *)
 Theorem C07_rollback_silent_refuted :
-  let L := mkLimits None None in
-  let es := [TrEstablished 5 0 true false; AcceptDone 0 true; TrEstablished 5 1 true false;
+  let L := mkLimits None None [TCP; WS] in
+  let es := [TrEstablished 5 0 TCP true false; AcceptDone 0 true; TrEstablished 5 1 WS true false;
              Closed 5 0; AcceptDone 1 false] in
   env_trace L init [] es /\
-  concat (snd (run L init es)) = [CallAccept 0; EvEstablished 5 0; CallAccept 1] /\
+  concat (snd (run L init es)) = [CallAccept 0 TCP; EvEstablished 5 0; CallAccept 1 WS] /\
   state_of (fst (run L init es)) 5 = Disconnected None.
 Proof. exact rollback_silent_refuted. Qed.
 Print Assumptions C07_rollback_silent_refuted.
@@ -407,13 +407,13 @@ Proof. vm_compute. repeat split. Qed.
 (* non-vacuity: a node with three protocols; a connection is accepted, one protocol exits, a
    substream for it is dropped, the remote closes: the application sees established then closed *)
 Example C07_nonvacuous :
-  let L := mkLimits None None in
-  let es := [NMgr AllocConn; NMgr (TrEstablished 7 0 true false); NAccept 0;
+  let L := mkLimits None None [TCP; WS] in
+  let es := [NMgr AllocConn; NMgr (TrEstablished 7 0 TCP true false); NAccept 0;
              NProtoDie 1; NTask 0 (ENeg (NegOk 1 false)); NTask 0 (ENeg (NegOk 2 false));
              NTask 0 (EYamux YEof)] in
   node_env_trace L (node_init 3) [] [] es /\
   fst (snd (node_run L (node_init 3) es)) =
-    [OMgr (Ret 100); OMgr (CallAccept 0);
+    [OMgr (Ret 100); OMgr (CallAccept 0 TCP);
      ONote 0 (NEst 0); ONote 0 (NEst 1); ONote 0 (NEst 2); OMgr (EvEstablished 7 0);
      ONote 0 (NSubOpen 2 false);
      ONote 0 (NClosed 0); ONote 0 (NClosed 2); ONote 0 NMgrClosed; OMgr (EvClosed 7 0)].
